@@ -21,7 +21,7 @@ def cases(tier, seed):
 def run_both(drv, case):
     io, objs = arrays.run_impl(case)
     LAST_LEAK[0] = arrays.LEAK[0]
-    mo = drv.ask(arrays.model_req(case)) if drv is not None else None
+    mo = arrays.model_obs(drv, case) if drv is not None else None
     return arrays.canon(io), (arrays.canon(mo) if mo is not None else None)
 
 
@@ -51,9 +51,22 @@ def oracle(case, obs):
         return None                # rejected at construction: nothing to round-trip
     if case["names"] and a["rank"] > 0 and a["dnames"][-1] == "_labels_" and not a["stack"]:
         return None
-    b = obs["back"]
-    if obs["body"] is None or (isinstance(obs["body"], dict) and "err" in obs["body"]):
-        return {"save_failed": obs["body"]}
+    f = roundtrip_fail(a, obs["body"], obs["back"])
+    if f:
+        return f
+    rs = obs.get("resave")
+    if rs:
+        # the same object, changed once more and saved a second time, round-trips as it is NOW
+        a2 = rs["after"] if isinstance(rs["after"], dict) and "err" not in rs["after"] else a
+        f = roundtrip_fail(a2, rs["body"], rs["back"])
+        if f:
+            return dict(f, second_save_of_the_same_object=True, last_change=case.get("resave"))
+    return None
+
+
+def roundtrip_fail(a, body, b):
+    if body is None or (isinstance(body, dict) and "err" in body):
+        return {"save_failed": body}
     if b is None or "err" in b:
         return {"read_failed": b}
     for k in ("tok", "shape", "units", "stack", "labels", "dunits", "dnames", "rank", "depth", "ashape"):
@@ -63,7 +76,7 @@ def oracle(case, obs):
         if len(da) != len(db) or not all(num_equal(x, y) for x, y in zip(da, db)):
             return {"axis": n, "dim_saved": da, "dim_read": db}
     # the file: exactly one dim dataset per axis, of length 2 or the extent
-    names = sorted(k for k, _ in obs["body"] if k.startswith("dim"))
+    names = sorted(k for k, _ in body if k.startswith("dim"))
     want = sorted(f"dim{i}" for i in range(len(a["shape"])))
     if names != want:
         return {"dim_datasets": names, "expected": want}
